@@ -89,31 +89,38 @@ Definition ban_corr (c : ban_obs) : bool :=
 Definition mon_ban (c : ban_obs) : bool := forallb (fun g => g <=? 0) (bo_gains c).
 
 (* one real block (FinalizeBlock) as seen from the mint: supplies and the STORED minter data before,
-   supply deltas and stored data after; [bo_prev_mint] = time (s) of the previous block in which
-   the supply grew by a mint, tracked by the harness (ghost) *)
+   supply deltas and stored data after; [bk_epoch] = the minute epoch began in this block (read
+   from x/epochs: the epoch number advanced), i.e. the mint function ran; [bk_prev_mint] = time (s)
+   of the previous block in which the minute epoch began, tracked by the harness from x/epochs
+   (ghost, independent of what the mint function stores) *)
 Record block_obs := {
   bk_fee : Z; bk_bond : Z; bk_stored : option Z; bk_now_ns : Z; bk_ratio : Z;
-  bk_dfee : Z; bk_dbond : Z; bk_stored' : option Z; bk_prev_mint : option Z }.
+  bk_dfee : Z; bk_dbond : Z; bk_stored' : option Z; bk_epoch : bool; bk_prev_mint : option Z }.
 Definition oz_eqb (a b : option Z) : bool :=
   match a, b with Some x, Some y => x =? y | None, None => true | _, _ => false end.
-(* either the minute epoch did not start in this block (nothing minted, nothing stored), or the
-   mint function ran on the stored minter and its new last-mint time was persisted *)
+(* the minute epoch did not begin in this block: nothing minted, nothing stored; it did: the mint
+   function ran on the stored minter and its new last-mint time was persisted, minted or not *)
 Definition block_corr (b : block_obs) : bool :=
-  ((bk_dfee b =? 0) && (bk_dbond b =? 0) && oz_eqb (bk_stored b) (bk_stored' b)) ||
-  match mint_fn {| mi_fee_supply := bk_fee b; mi_bond_supply := bk_bond b; mi_last := bk_stored b;
-                   mi_now_ns := bk_now_ns b; mi_ratio := bk_ratio b |} with
-  | Some m => (mo_fee_minted m =? bk_dfee b) && (mo_bond_minted m =? bk_dbond b) &&
-              oz_eqb (bk_stored' b) (Some (mo_last m))
-  | None => false
-  end.
+  if bk_epoch b then
+    match mint_fn {| mi_fee_supply := bk_fee b; mi_bond_supply := bk_bond b; mi_last := bk_stored b;
+                     mi_now_ns := bk_now_ns b; mi_ratio := bk_ratio b |} with
+    | Some m => (mo_fee_minted m =? bk_dfee b) && (mo_bond_minted m =? bk_dbond b) &&
+                oz_eqb (bk_stored' b) (Some (mo_last m))
+    | None => false
+    end
+  else (bk_dfee b =? 0) && (bk_dbond b =? 0) && oz_eqb (bk_stored b) (bk_stored' b).
 (* monitor: what a block mints never exceeds the inflation cap pro-rated to the time since the
-   previous mint *)
+   mint function last ran (the previous minute epoch), nor lifts the combined supply above the cap
+   it was under *)
 Definition mon_block_prorated (b : block_obs) : bool :=
   match bk_prev_mint b, inflation_rate_cap (years_since_genesis GENESIS_NS (bk_now_ns b)) with
   | Some prev, Some rate =>
       (bk_dfee b + bk_dbond b) * SECONDS_PER_YEAR * P <=? rate * (bk_fee b + bk_bond b) * (unix (bk_now_ns b) - prev)
   | _, _ => true
-  end.
+  end &&
+  (0 <=? bk_dfee b) && (0 <=? bk_dbond b) &&
+  ((SUPPLY_CAP <? bk_fee b + bk_bond b) || (bk_fee b + bk_bond b + bk_dfee b + bk_dbond b <=? SUPPLY_CAP)) &&
+  ((bk_fee b + bk_bond b <=? SUPPLY_CAP) || ((bk_dfee b =? 0) && (bk_dbond b =? 0))).
 
 Inductive c13_case :=
 | CMintBlock (b : block_obs)
